@@ -35,16 +35,16 @@ type wrapExec struct {
 	findings []finding
 	dead     bool
 
-	blocks   []wrapBlock
-	w        int
-	calls    int
-	eofs     int
-	faults   int
+	blocks         []wrapBlock
+	w              int
+	calls          int
+	eofs           int
+	faults         int
 	faultsWithData int
-	reads    int
-	nMatches int
-	refills  bool
-	spun     bool
+	reads          int
+	nMatches       int
+	refills        bool
+	spun           bool
 }
 
 func (x *wrapExec) report(prop, format string, a ...any) {
